@@ -507,6 +507,15 @@ func runTarget(p *Loaded, t Target, selRet int) (res *TargetResult) {
 		x.oblige("V", "reachable", False(), token.NoPos)
 		x.behavior = saved
 		x.curFunc = x.curFunc[:len(x.curFunc)-1]
+	} else if selRet == 0 && x.st == nil && res.Err == "" && x.driver && x.cleanExit != nil {
+		// a program that ends in os.Exit(0): that exit must be reachable under all assumptions
+		x.st = &State{pc: x.cleanExit, heap: &Heap{m: map[*Object]Value{}}}
+		x.curFunc = append(x.curFunc, t.Name)
+		saved := x.behavior
+		x.behavior = ""
+		x.oblige("V", "reachable", False(), token.NoPos)
+		x.behavior = saved
+		x.curFunc = x.curFunc[:len(x.curFunc)-1]
 	} else if selRet == 0 && x.st == nil && res.Err == "" {
 		// no path reaches the end of the harness at all
 		x.st = &State{pc: False(), heap: &Heap{m: map[*Object]Value{}}}
